@@ -141,11 +141,25 @@ MapConstants(e) ==
        THEN \* simplified SWU on the curve or on its isogenous curve: c2, c3 its coefficients, c0 = -c3/c2, u a non-square
             /\ c2 # <<>> /\ FMul(c0, c2, p) = FNeg(c3, p)
             /\ u # <<>> /\ FLegendre(u, p) = 0 - 1
-            /\ IF e.ctmap = 1 THEN c2 = BNorm(e.isoa) /\ c3 = BNorm(e.isob) ELSE c2 = a /\ c3 = b
+            /\ IF e.ctmap = 1 THEN c2 = BNorm(e.isoa) /\ c3 = BNorm(e.isob)
+               ELSE /\ c2 = a /\ c3 = b
+                    \* u is the FIRST value 1, 2, 3, ... that is a non-square with g(b/(ua)) a square (the documented
+                    \* search): the constant does not depend on what was selected before
+                    /\ LET Adm(v) == LET x == FMul(b, FInv(FMul(v, a, p), p), p) IN
+                                      /\ FLegendre(v, p) = 0 - 1
+                                      /\ FLegendre(FAdd(FMul(FAdd(FSqr(x, p), a, p), x, p), b, p), p) # 0 - 1
+                       IN  /\ BLt(u, <<0, 1>>) /\ Adm(u)
+                           /\ \A v \in 1..(BToNat(u) - 1) : ~Adm(BFromNat(v))
        ELSE \* Shallue - van de Woestijne: c0 = g(u), c1 = -u/2, c2 = sqrt(-g(u)(3u^2+4a)) with sgn0 = 0, c3 = -4g(u)/(3u^2+4a)
             LET gu == FAdd(FMul(FAdd(FSqr(u, p), a, p), u, p), b, p)
                 d  == FAdd(FMul(<<3>>, FSqr(u, p), p), FMul(<<4>>, a, p), p)
+                AdmS(v) == LET gv == FAdd(FMul(FAdd(FSqr(v, p), a, p), v, p), b, p)
+                               dv == FAdd(FMul(<<3>>, FSqr(v, p), p), FMul(<<4>>, a, p), p)
+                               t  == FNeg(FMul(gv, dv, p), p)
+                           IN  t # <<>> /\ FLegendre(t, p) = 1
             IN  /\ u # <<>> /\ c0 = gu
+                \* u is the first value 1, 2, 3, ... for which -g(u)(3u^2 + 4a) is a non-zero square
+                /\ BLt(u, <<0, 1>>) /\ AdmS(u) /\ \A v \in 1..(BToNat(u) - 1) : ~AdmS(BFromNat(v))
                 /\ FAdd(FAdd(c1, c1, p), u, p) = <<>>
                 /\ c2 # <<>> /\ FSqr(c2, p) = FNeg(FMul(gu, d, p), p) /\ BBit(c2, 0) = 0
                 /\ FAdd(FMul(c3, d, p), FMul(<<4>>, gu, p), p) = <<>>
